@@ -218,6 +218,14 @@ func cmdCheck(args []string) {
 		fmt.Println("INCONCLUSIVE: unknown property", *prop)
 		os.Exit(2)
 	}
+	// the claim text (bounds, what is outside) is echoed into the evidence
+	claimLevel, claimNote := "", ""
+	if cb, err := os.ReadFile(filepath.Join(*root, "tools", "claims.json")); err == nil {
+		var claims map[string]map[string]string
+		if json.Unmarshal(cb, &claims) == nil {
+			claimLevel, claimNote = claims[*prop]["level"], claims[*prop]["note"]
+		}
+	}
 	var known []KnownFinding
 	if kb, err := os.ReadFile(filepath.Join(*root, "known_findings.json")); err == nil {
 		json.Unmarshal(kb, &known)
@@ -481,6 +489,8 @@ func cmdCheck(args []string) {
 		"obligations":                   totalObl,
 		"discharged":                    totalDis,
 		"explanation":                   spec.Explanation,
+		"claim_within_bounds":           claimLevel,
+		"outside_the_claim":             claimNote,
 		"functions_encoded":             fnList,
 		"bounds":                        append(append([]string{}, spec.Bounds...), rangesList(ranges)...),
 		"outside":                       spec.Outside,
